@@ -436,6 +436,16 @@ class Engine:
                 arr = fresh('rng', z3.ArraySort(I, I))
                 p.facts.append(Schematic(1, lambda k, arr=arr, lo=lo, n=n: Implies(And(0 <= k, k < n), arr[k] == lo + k), 'list(range)'))
                 p.heap.store(r, '$items:int', arr); p.heap.store(r, '$len', n); return V('list[int]', r)
+            if src.kind.startswith('set['):                # list(set): SOME enumeration of the members (the order is the hash order: nothing is assumed about it)
+                K = src.kind[4:-1]; r = p.heap.new(p, 'lst'); arr = fresh('setlist', z3.ArraySort(I, sort_of(K))); n = fresh('setlist_len', I); has = p.heap.load(src.term, dhas_field(K))
+                idx = z3.Function(f'setlist_idx!{next(_n)}', sort_of(K), I); p.pc.append(n >= 0)
+                ARR_SIG[arr.decl().name()] = _canon_arr(z3.Select(p.heap.arr(items_field(K)), r))
+                p.facts.append(Schematic(1, lambda k, arr=arr, n=n, has=has: Implies(And(0 <= k, k < n), has[arr[k]]), 'list(set):members'))
+                p.facts.append(Schematic(2, lambda k, k2, arr=arr, n=n: Implies(And(0 <= k, k < k2, k2 < n), arr[k] != arr[k2]), 'list(set):distinct'))
+                if K == 'int': p.facts.append(Schematic(1, lambda x, arr=arr, n=n, has=has, idx=idx: Implies(has[x], And(0 <= idx(x), idx(x) < n, arr[idx(x)] == x)), 'list(set):complete'))
+                p.heap.store(r, items_field(K), arr); p.heap.store(r, '$len', n); out = V(f'list[{K}]', r, set_idx=idx)
+                if hasattr(self.spec, 'on_list_of_set'): self.spec.on_list_of_set(self, p, src, out)
+                return out
             if src.kind.startswith('list['):               # shallow copy
                 ek = elem_kind(src.kind); r = p.heap.new(p, 'lst')
                 p.heap.store(r, items_field(ek), self.litems(src, p)); p.heap.store(r, '$len', self.llen(src, p)); return V(src.kind, r)
